@@ -86,6 +86,11 @@ class ClassInfo:
                 v = c.class_attrs[name]
                 if isinstance(v, ast.Name) and v.id in c.methods:
                     return c.methods[v.id]
+                # alias of another class's method: ``dh_dpos = System.dh_dpos``
+                if isinstance(v, ast.Attribute) and isinstance(v.value, ast.Name):
+                    other = next((k for k in self.mro if k.name == v.value.id), None) or getattr(self, "_program_classes", {}).get(v.value.id)
+                    if other is not None and v.attr in other.methods:
+                        return other.methods[v.attr]
                 return None
         return None
 
@@ -1102,7 +1107,8 @@ def expand_named_conditions(func: ast.FunctionDef, keep=frozenset()) -> ast.Func
         attributes and constant-key subscripts (the extra conditions below cover what those read)"""
         if isinstance(e, (ast.Name, ast.Constant, ast.Attribute, ast.Tuple, ast.List, ast.Dict, ast.Set)):
             return False  # plain aliases / containers are handled elsewhere (identity matters for containers)
-        return not any(isinstance(n, (ast.Call, ast.NamedExpr, ast.Await, ast.Lambda, ast.Yield, ast.YieldFrom, ast.ListComp, ast.DictComp, ast.SetComp, ast.GeneratorExp, ast.List, ast.Dict, ast.Set, ast.Starred)) or (isinstance(n, ast.Subscript) and not isinstance(n.slice, ast.Constant)) for n in ast.walk(e))
+        pure = {"np.isnan", "np.isinf", "np.isfinite", "math.isnan", "math.isinf", "math.isfinite", "isnan", "isinf", "isfinite", "isinstance", "len", "abs", "callable", "hasattr"}
+        return not any((isinstance(n, ast.Call) and norm(n.func) not in pure) or isinstance(n, (ast.NamedExpr, ast.Await, ast.Lambda, ast.Yield, ast.YieldFrom, ast.ListComp, ast.DictComp, ast.SetComp, ast.GeneratorExp, ast.List, ast.Dict, ast.Set, ast.Starred)) or (isinstance(n, ast.Subscript) and not isinstance(n.slice, ast.Constant)) for n in ast.walk(e))
 
     changed = False
 
@@ -1246,6 +1252,8 @@ def expand_param_aliases(func: ast.FunctionDef, keep=frozenset()) -> ast.Functio
     counts = _store_counts(func)
     params = {a.arg for a in func.args.posonlyargs + func.args.args + func.args.kwonlyargs} - {"self", "cls"}
     params = {p for p in params if counts.get(p, 0) == 0}
+    # a local bound exactly once is as stable a root as a parameter
+    params |= {n for n, c in counts.items() if c == 1}
     if not params:
         return func
 
@@ -1494,7 +1502,7 @@ def expand_starred_tuple_args(func: ast.FunctionDef, keep=frozenset()) -> ast.Fu
     defs = {}
     for block in _blocks(func):
         for st in block:
-            if isinstance(st, ast.Assign) and len(st.targets) == 1 and isinstance(st.targets[0], ast.Name) and isinstance(st.value, ast.Tuple) and all(isinstance(e, (ast.Name, ast.Constant)) or (isinstance(e, ast.Attribute) and isinstance(e.value, ast.Name)) for e in st.value.elts):
+            if isinstance(st, ast.Assign) and len(st.targets) == 1 and isinstance(st.targets[0], ast.Name) and isinstance(st.value, ast.Tuple) and all(not any(isinstance(x, (ast.Call, ast.NamedExpr, ast.Await, ast.Lambda, ast.Starred, ast.ListComp, ast.GeneratorExp, ast.DictComp, ast.SetComp)) for x in ast.walk(e)) for e in st.value.elts):
                 name = st.targets[0].id
                 if name in keep or counts.get(name) != 1:
                     continue
@@ -1623,7 +1631,7 @@ def sink_tail_into_arms(func: ast.FunctionDef, keep=frozenset()) -> ast.Function
             tail = block[i + 1 :]
             if not tail or len(tail) > 4 or not isinstance(tail[-1], ast.Return):
                 continue
-            if any(isinstance(n, (ast.For, ast.While, ast.FunctionDef, ast.Try, ast.With)) for x in tail for n in ast.walk(x)):
+            if not all(isinstance(x, (ast.Assign, ast.AugAssign, ast.Expr, ast.Return)) for x in tail):
                 continue
             arms = [st.body, st.orelse]
             if any(arm and isinstance(arm[-1], (ast.Return, ast.Raise, ast.Continue, ast.Break)) for arm in arms):
@@ -1688,6 +1696,209 @@ def splat_literal_star_args(func: ast.FunctionDef) -> ast.FunctionDef:
             return c
 
     return ast.fix_missing_locations(T().visit(_copy.deepcopy(func)))
+
+
+def merge_unpack_then_store(func: ast.FunctionDef, keep=frozenset()) -> ast.FunctionDef:
+    """``a, b = E`` ; ``X.p = a`` ; ``X.q = b`` (new locals a, b, read nowhere else) -> ``X.p, X.q = E``."""
+    import copy as _copy
+
+    changed = False
+    new = _copy.deepcopy(func)
+    loads: dict[str, int] = {}
+    for n in ast.walk(new):
+        if isinstance(n, ast.Name) and isinstance(n.ctx, ast.Load):
+            loads[n.id] = loads.get(n.id, 0) + 1
+    counts = _store_counts(new)
+    for block in _blocks(new):
+        i = 0
+        while i < len(block):
+            st = block[i]
+            if isinstance(st, ast.Assign) and len(st.targets) == 1 and isinstance(st.targets[0], ast.Tuple) and all(isinstance(x, ast.Name) for x in st.targets[0].elts):
+                names = [x.id for x in st.targets[0].elts]
+                k = len(names)
+                stores = block[i + 1 : i + 1 + k]
+                if (
+                    len(stores) == k
+                    and all(n not in keep and counts.get(n) == 1 and loads.get(n) == 1 for n in names)
+                    and all(isinstance(x, ast.Assign) and len(x.targets) == 1 and isinstance(x.targets[0], (ast.Attribute, ast.Subscript)) and isinstance(x.value, ast.Name) and x.value.id == nm for x, nm in zip(stores, names))
+                ):
+                    merged = ast.Assign(targets=[ast.Tuple(elts=[x.targets[0] for x in stores], ctx=ast.Store())], value=st.value)
+                    ast.copy_location(merged, st)
+                    block[i : i + 1 + k] = [ast.fix_missing_locations(merged)]
+                    changed = True
+                    continue
+            i += 1
+    return new if changed else func
+
+
+def raise_guard_first(func: ast.FunctionDef) -> ast.FunctionDef:
+    """``if c: <normal path ending in return>`` followed by a tail that only builds a message and raises
+    -> ``if not c: <tail>`` followed by the normal path (the usual guard-clause spelling)."""
+    import copy as _copy
+
+    changed = False
+    new = _copy.deepcopy(func)
+    for block in _blocks(new):
+        for i, st in enumerate(block):
+            if not (isinstance(st, ast.If) and not st.orelse and st.body and isinstance(st.body[-1], ast.Return)):
+                continue
+            tail = block[i + 1 :]
+            if not tail or not isinstance(tail[-1], ast.Raise) or not all(isinstance(x, (ast.Assign, ast.Expr, ast.Raise)) for x in tail):
+                continue
+            if any(isinstance(n, (ast.Return,)) for x in st.body[:-1] for n in ast.walk(x)) and False:
+                continue
+            test = st.test.operand if isinstance(st.test, ast.UnaryOp) and isinstance(st.test.op, ast.Not) else None
+            if test is None:
+                t = st.test
+                if isinstance(t, ast.Compare) and len(t.ops) == 1 and isinstance(t.ops[0], (ast.Is, ast.IsNot, ast.Eq, ast.NotEq, ast.Lt, ast.GtE, ast.Gt, ast.LtE, ast.In, ast.NotIn)):
+                    flip = {ast.Is: ast.IsNot, ast.IsNot: ast.Is, ast.Eq: ast.NotEq, ast.NotEq: ast.Eq, ast.Lt: ast.GtE, ast.GtE: ast.Lt, ast.Gt: ast.LtE, ast.LtE: ast.Gt, ast.In: ast.NotIn, ast.NotIn: ast.In}
+                    test = ast.Compare(left=t.left, ops=[flip[type(t.ops[0])]()], comparators=t.comparators)
+                else:
+                    test = ast.UnaryOp(op=ast.Not(), operand=t)
+            guard = ast.copy_location(ast.If(test=test, body=list(tail), orelse=[]), st)
+            block[i:] = [ast.fix_missing_locations(guard)] + list(st.body)
+            changed = True
+            break
+    return ast.fix_missing_locations(new) if changed else func
+
+
+def expand_defaulted_mappings(func: ast.FunctionDef, keep=frozenset()) -> ast.FunctionDef:
+    """``m = {} if x is None else x`` (also ``x if x is not None else {}``) for a new local ``m`` that is only
+    read through membership tests and item loads: ``k in m`` -> ``x is not None and k in x``, ``m[k]`` -> ``x[k]``
+    (an item load on the empty default can only raise), and the binding is removed."""
+    import copy as _copy
+
+    counts = _store_counts(func)
+    found = {}
+    for block in _blocks(func):
+        for st in block:
+            if not (isinstance(st, ast.Assign) and len(st.targets) == 1 and isinstance(st.targets[0], ast.Name) and isinstance(st.value, ast.IfExp)):
+                continue
+            name, v = st.targets[0].id, st.value
+            if name in keep or counts.get(name) != 1:
+                continue
+            t = v.test
+            if not (isinstance(t, ast.Compare) and len(t.ops) == 1 and isinstance(t.ops[0], (ast.Is, ast.IsNot)) and isinstance(t.left, ast.Name) and isinstance(t.comparators[0], ast.Constant) and t.comparators[0].value is None):
+                continue
+            src = t.left.id
+            none_arm, other = (v.body, v.orelse) if isinstance(t.ops[0], ast.Is) else (v.orelse, v.body)
+            empty = (isinstance(none_arm, (ast.Dict, ast.Tuple, ast.List, ast.Set)) and not (none_arm.keys if isinstance(none_arm, ast.Dict) else none_arm.elts)) or (isinstance(none_arm, ast.Call) and norm(none_arm.func) in ("dict", "tuple", "list", "set", "frozenset") and not none_arm.args and not none_arm.keywords)
+            if not empty or not (isinstance(other, ast.Name) and other.id == src) or counts.get(src, 0) > 0:
+                continue
+            found[name] = src
+    if not found:
+        return func
+    # every use must be a membership test or an item load
+    parents = {}
+    for n in ast.walk(func):
+        for ch in ast.iter_child_nodes(n):
+            parents[id(ch)] = n
+    for name in list(found):
+        for n in ast.walk(func):
+            if isinstance(n, ast.Name) and n.id == name and isinstance(n.ctx, ast.Load):
+                par = parents.get(id(n))
+                ok = (isinstance(par, ast.Compare) and len(par.ops) == 1 and isinstance(par.ops[0], (ast.In, ast.NotIn)) and par.comparators[0] is n) or (isinstance(par, ast.Subscript) and par.value is n and isinstance(par.ctx, ast.Load))
+                if not ok:
+                    found.pop(name, None)
+                    break
+    if not found:
+        return func
+
+    class T(ast.NodeTransformer):
+        def visit_Compare(self, c):  # noqa: N802
+            self.generic_visit(c)
+            if len(c.ops) == 1 and isinstance(c.ops[0], (ast.In, ast.NotIn)) and isinstance(c.comparators[0], ast.Name) and c.comparators[0].id in found:
+                src = found[c.comparators[0].id]
+                member = ast.Compare(left=c.left, ops=[ast.In()], comparators=[ast.Name(id=src, ctx=ast.Load())])
+                notnone = ast.Compare(left=ast.Name(id=src, ctx=ast.Load()), ops=[ast.IsNot()], comparators=[ast.Constant(value=None)])
+                both = ast.BoolOp(op=ast.And(), values=[notnone, member])
+                out = both if isinstance(c.ops[0], ast.In) else ast.UnaryOp(op=ast.Not(), operand=both)
+                return ast.copy_location(out, c)
+            return c
+
+        def visit_Subscript(self, n):  # noqa: N802
+            self.generic_visit(n)
+            if isinstance(n.value, ast.Name) and n.value.id in found and isinstance(n.ctx, ast.Load):
+                n.value = ast.copy_location(ast.Name(id=found[n.value.id], ctx=ast.Load()), n.value)
+            return n
+
+        def visit_Assign(self, n):  # noqa: N802
+            if len(n.targets) == 1 and isinstance(n.targets[0], ast.Name) and n.targets[0].id in found:
+                return None
+            return self.generic_visit(n)
+
+    return ast.fix_missing_locations(T().visit(_copy.deepcopy(func)))
+
+
+def guard_return_to_else(func: ast.FunctionDef) -> ast.FunctionDef:
+    """In a function whose returns are all bare (it returns None): ``if c: A; return`` followed by ``B`` at the
+    top level of the body is ``if c: A`` / ``else: B``."""
+    import copy as _copy
+
+    if any(isinstance(n, ast.Return) and n.value is not None and not (isinstance(n.value, ast.Constant) and n.value.value is None) for n in ast.walk(func)):
+        return func
+    if any(isinstance(n, (ast.Yield, ast.YieldFrom)) for n in ast.walk(func)):
+        return func
+    changed = False
+    new = _copy.deepcopy(func)
+
+    def fix(body):
+        nonlocal changed
+        for k, st in enumerate(body):
+            if isinstance(st, ast.If) and not st.orelse and st.body and isinstance(st.body[-1], ast.Return) and k + 1 < len(body) and not any(isinstance(n, ast.Return) for x in st.body[:-1] for n in ast.walk(x)):
+                rest = body[k + 1 :]
+                st.body = st.body[:-1] or [ast.copy_location(ast.Pass(), st)]
+                st.orelse = fix(rest)
+                changed = True
+                return body[: k + 1]
+        return body
+
+    new.body = fix(new.body)
+    return ast.fix_missing_locations(new) if changed else func
+
+
+def merge_first_rest_loops(func: ast.FunctionDef, keep=frozenset()) -> ast.FunctionDef:
+    """``it = iter(xs)`` ; ``for a in it: INIT; break`` ; ``for a in it: BODY``  (``it`` a new local used nowhere
+    else)  ->  ``for i, a in enumerate(xs): if i == 0: INIT`` / ``else: BODY``."""
+    import copy as _copy
+
+    counts = _store_counts(func)
+    changed = False
+    new = _copy.deepcopy(func)
+    for block in _blocks(new):
+        i = 0
+        while i + 2 < len(block) + 0:
+            st = block[i]
+            ok = isinstance(st, ast.Assign) and len(st.targets) == 1 and isinstance(st.targets[0], ast.Name) and isinstance(st.value, ast.Call) and norm(st.value.func) == "iter" and len(st.value.args) == 1
+            if ok:
+                it = st.targets[0].id
+                # comments / other statements may not sit in between
+                l1, l2 = (block[i + 1], block[i + 2]) if i + 2 < len(block) else (None, None)
+                ok = (
+                    it not in keep and counts.get(it) == 1
+                    and isinstance(l1, ast.For) and isinstance(l2, ast.For) and not l1.orelse and not l2.orelse
+                    and norm(l1.iter) == it and norm(l2.iter) == it and norm(l1.target) == norm(l2.target)
+                    and l1.body and isinstance(l1.body[-1], ast.Break)
+                    and not any(isinstance(n, (ast.Break, ast.Continue)) for x in l1.body[:-1] for n in ast.walk(x))
+                    and not any(isinstance(n, ast.Break) for x in l2.body for n in ast.walk(x))
+                    and sum(1 for n in ast.walk(new) if isinstance(n, ast.Name) and n.id == it and isinstance(n.ctx, ast.Load)) == 2
+                )
+            if ok:
+                idx = "_first_rest_index"
+                test = ast.Compare(left=ast.Name(id=idx, ctx=ast.Load()), ops=[ast.Eq()], comparators=[ast.Constant(value=0)])
+                loop = ast.For(
+                    target=ast.Tuple(elts=[ast.Name(id=idx, ctx=ast.Store()), l1.target], ctx=ast.Store()),
+                    iter=ast.Call(func=ast.Name(id="enumerate", ctx=ast.Load()), args=[st.value.args[0]], keywords=[]),
+                    body=[ast.If(test=test, body=l1.body[:-1] or [ast.Pass()], orelse=l2.body)],
+                    orelse=[],
+                )
+                for n in ast.walk(loop):
+                    ast.copy_location(n, l1)
+                block[i : i + 3] = [ast.fix_missing_locations(loop)]
+                changed = True
+                continue
+            i += 1
+    return new if changed else func
 
 
 def hoist_leading_walrus(func: ast.FunctionDef) -> ast.FunctionDef:
@@ -1870,6 +2081,8 @@ class Program:
                     targets += list(c.methods.values()) + list(c.setters.values())
                 for f in targets:
                     keep_l = frozenset(pinned_locals.get(m.name, {}).get(f.qualname, ()))
+                    f.node = raise_guard_first(f.node)
+                    f.node = expand_defaulted_mappings(f.node, keep=keep_l)
                     f.node = sink_tail_into_arms(f.node, keep=keep_l)
                     f.node = canon_ifexp_not(f.node)
                     f.node = unroll_const_table_dispatch(f.node, const_tables.get(m.name, {}))
@@ -1879,8 +2092,11 @@ class Program:
                     f.node = fold_new_loop_built(f.node, keep=keep_l)
                     f.node = fold_sum_loops(f.node, keep=keep_l)
                     f.node = expand_named_conditions(f.node, keep=keep_l)
+                    f.node = merge_unpack_then_store(f.node, keep=keep_l)
                     f.node = inline_new_single_use_locals(f.node, keep=keep_l)
                     f.node = guard_continue_to_else(f.node)
+                    f.node = guard_return_to_else(f.node)
+                    f.node = merge_first_rest_loops(f.node, keep=keep_l)
                     f.node = splat_literal_star_args(f.node)
                     f.node = dict_update_to_loop(f.node)
                     f.node = hoist_leading_walrus(desugar_reduce(unroll_method_tuple_loops(expand_self_aliases(f.node))))
